@@ -60,6 +60,7 @@ type Exec struct {
 	pureFuns   map[string]*pureFun
 	rets       []retState
 	inTwin     bool
+	nonEsc     map[*ssa.Function][]*ssa.Alloc
 }
 
 func NewExec(P *Program, cfg *Config) *Exec {
@@ -705,6 +706,18 @@ func (x *Exec) jump(st *State, fr *Frame, b *ssa.BasicBlock) bool {
 					x.emit(st, fr, "F1", "loop"+ref+".decreases", And(App(SBool, "<", v.T, snap.decr[i]), App(SBool, "<=", IntLit(0), snap.decr[i])), in0(b))
 				}
 			}
+			// per-iteration postconditions: what must hold whenever an iteration completes
+			for _, cl := range x.iterClauses(st, fr, ld) {
+				sc := x.scopeFor(st, fr)
+				sc.addVars(vars)
+				t, err := x.evalBool(st, fr, cl.E, sc)
+				if err != nil {
+					x.unsupported("loop %s back_edge_ensures in %s: %v", ref, CanonName(fr.fn), err)
+					t = TFalse
+				}
+				x.emit(st, fr, "F1", "loop"+ref+".iteration."+labelOr(cl, "post"), t, in0(b))
+			}
+			x.clearContinuesAfter(st, fr, ref, in0(b))
 			st.note("loop %s back edge: path ends", ref)
 			return false
 		}
@@ -728,6 +741,9 @@ func (x *Exec) jump(st *State, fr *Frame, b *ssa.BasicBlock) bool {
 		for phi, v := range phiVals {
 			if phi.Comment == "rangeindex" {
 				st.assume(App(SBool, ">=", v.T, IntLit(-1)))
+				// the index only advances while it is below the length of the ranged-over value,
+				// and lengths are bounded by 2^62 (type invariant of slices/strings)
+				st.assume(App(SBool, "<=", v.T, IntLitStr("4611686018427387904")))
 			}
 		}
 		vars = x.phiScope(b, phiVals)
@@ -876,6 +892,42 @@ func (x *Exec) havocLoop(st *State, fr *Frame, ld *loopDesc) {
 		}
 		touched["*"] = true
 	}
+	// locals whose address never leaves the function and that the loop body does not store to keep
+	// their value across the loop, whatever the body calls
+	type kept struct {
+		lv *LVal
+		t  Term
+	}
+	var keep []kept
+	if touched["*"] {
+		stored := map[*ssa.Alloc]bool{}
+		for bi := range ld.body {
+			for _, in := range fr.fn.Blocks[bi].Instrs {
+				if s, ok := in.(*ssa.Store); ok {
+					if a := rootAlloc(s.Addr); a != nil {
+						stored[a] = true
+					}
+				}
+			}
+		}
+		for _, a := range x.nonEscapingAllocs(fr.fn) {
+			if stored[a] {
+				continue
+			}
+			v, ok := fr.env[a]
+			if !ok || v.LV == nil {
+				continue
+			}
+			if t, _, err := x.loadLV(st.heap, v.LV); err == nil {
+				keep = append(keep, kept{v.LV, x.define(st, "keep", t)})
+			}
+		}
+	}
+	defer func() {
+		for _, k := range keep {
+			_ = x.storeLV(st, k.lv, k.t)
+		}
+	}()
 	if touched["*"] {
 		ep := x.D.Fresh("epoch", SInt)
 		for n := range st.heap {
@@ -1135,6 +1187,7 @@ func (x *Exec) doReturn(st *State, fr *Frame, res []Val) bool {
 		if x.inTwin {
 			x.recordReturn(st, fr, res)
 		}
+		x.checkContinuesAfter(st, fr, fr.block.Instrs[fr.pc])
 		x.checkPost(st, fr, res)
 		st.dead = true
 		return false
@@ -1338,4 +1391,83 @@ func (x *Exec) calleeFrameArrays(cc *ssa.CallCommon) ([]string, bool) {
 		}
 	}
 	return out, true
+}
+
+// rootAlloc follows FieldAddr/IndexAddr chains to the allocation an address is derived from.
+func rootAlloc(v ssa.Value) *ssa.Alloc {
+	for {
+		switch a := v.(type) {
+		case *ssa.Alloc:
+			return a
+		case *ssa.FieldAddr:
+			v = a.X
+		case *ssa.IndexAddr:
+			v = a.X
+		default:
+			return nil
+		}
+	}
+}
+
+// nonEscapingAllocs: allocations whose address is only loaded from / stored to (directly or through
+// field and index addresses). No callee, closure or other object can reach such a cell.
+func (x *Exec) nonEscapingAllocs(fn *ssa.Function) []*ssa.Alloc {
+	if x.nonEsc == nil {
+		x.nonEsc = map[*ssa.Function][]*ssa.Alloc{}
+	}
+	if r, ok := x.nonEsc[fn]; ok {
+		return r
+	}
+	var out []*ssa.Alloc
+	var onlyLocalUse func(v ssa.Value, depth int) bool
+	onlyLocalUse = func(v ssa.Value, depth int) bool {
+		if depth > 6 || v.Referrers() == nil {
+			return false
+		}
+		for _, r := range *v.Referrers() {
+			switch r := r.(type) {
+			case *ssa.DebugRef:
+			case *ssa.UnOp:
+				if r.Op != token.MUL {
+					return false
+				}
+			case *ssa.Store:
+				if r.Val == v {
+					return false
+				}
+			case *ssa.FieldAddr:
+				if !onlyLocalUse(r, depth+1) {
+					return false
+				}
+			case *ssa.IndexAddr:
+				if !onlyLocalUse(r, depth+1) {
+					return false
+				}
+			default:
+				return false
+			}
+		}
+		return true
+	}
+	for _, b := range fn.Blocks {
+		for _, in := range b.Instrs {
+			if a, ok := in.(*ssa.Alloc); ok && onlyLocalUse(a, 0) {
+				out = append(out, a)
+			}
+		}
+	}
+	x.nonEsc[fn] = out
+	return out
+}
+
+func (x *Exec) iterClauses(st *State, fr *Frame, ld *loopDesc) []Clause {
+	ref := fmt.Sprintf("%d", ld.ordinal)
+	var out []Clause
+	if fr.contract != nil {
+		out = append(out, fr.contract.LoopClauses(ref, "back_edge_ensures")...)
+	}
+	if fr != st.frames[0] && x.TopC != nil {
+		out = append(out, x.TopC.LoopClauses(fr.fn.Name()+"#"+ref, "back_edge_ensures")...)
+	}
+	return out
 }
